@@ -385,9 +385,17 @@ PartOK(c, r, v, pc, pr) ==
           /\ BagOf(pr.oe, DOMAIN pr.oe, LAMBDA e : <<pm[e.f], pm[e.t], e.ahs, [q \in DOMAIN e.pts |-> <<e.pts[q][1] + dx, e.pts[q][2]>>]>>)
              = LET ks == {k \in DOMAIN r.oe : r.oe[k].f \in Range(pm)} IN
                BagOf(r.oe, ks, LAMBDA e : <<e.f, e.t, e.ahs, e.pts>>)
-C09_Applies(c, r, v, g) == c.rel = "union" /\ v.ok /\ EdgesMapped(c, r) /\ Parts(g) # {} /\ StableParts(g)
+\* the solo runs of ALL parts have returned (the parts partition the union's nodes) and their outputs are proper views
+AllPartsReturned(c, g) == LET ps == {g[k].c.part : k \in Parts(g)} IN
+                          ps # {} /\ UNION {Range(pm) : pm \in ps} = 1..c.n
+PartsProper(g) == \A k \in Parts(g) : View(g[k].c, g[k].r).ok /\ EdgesMapped(g[k].c, g[k].r)
+C09_Applies(c, r, v, g) == c.rel = "union" /\ Parts(g) # {} /\ StableParts(g)
                            /\ r.exact = 1 /\ \A k \in Parts(g) : g[k].r.exact = 1
+                           /\ ((v.ok /\ EdgesMapped(c, r)) \/ (AllPartsReturned(c, g) /\ PartsProper(g)))
 C09_Fail(c, r, v, g) ==
+    IF ~(v.ok /\ EdgesMapped(c, r))
+    THEN {"ComponentIndependent"}       \* every part alone yields a proper drawing of its input, the union does not
+    ELSE
     If(\A k \in Parts(g) : PartOK(c, r, v, g[k].c, g[k].r), "ComponentIndependent")
     \cup If(c.p4 \in SizeAware =>
               \A m1, m2 \in v.roots : m1 < m2 =>
@@ -460,6 +468,13 @@ Return(r) == /\ cur # NoCall /\ r.case = cur.case
 
 \* the two documented panics: empty node set, malformed edge
 PanicAllowed(c) == c.n = 0 \/ c.bad # 0
+\* A relational property also relates OUTCOMES: when the calls a call is compared with have returned (the reference of its
+\* group; for a union the solo runs of all its parts), the call must return too.  A panic of the related call is then a
+\* violation of the relation (and of C01).  Aborts are left to C01: a watchdog abort can be the machine's fault.
+RelPropOf(rel) == CASE rel = "same" -> "C07" [] rel = "rename" -> "C08" [] rel = "union" -> "C09" [] rel = "scale" -> "C17"
+                    [] rel = "mon" -> "C18" [] rel = "conc" -> "C15" [] OTHER -> "none"
+PanicBreaksRelation(c, g) == /\ ~PanicAllowed(c) /\ RelPropOf(c.rel) \in Props
+                             /\ IF c.rel = "union" THEN AllPartsReturned(c, g) ELSE g # <<>>
 Panic(r) == /\ cur # NoCall /\ r.case = cur.case
             /\ PanicAllowed(cur)
             /\ cur' = NoCall /\ UNCHANGED grp
